@@ -106,7 +106,8 @@ class Run:
 
     # ------------------------------------------------------------------ TLC
     def tlc(self, module, cfg, mode="bfs", workers=1, simulate=None, depth=None, timeout=900,
-            coverage=False, extra_args=(), allow_violation=False, jvm=(), collect_json=True, dfid=None):
+            coverage=False, extra_args=(), allow_violation=False, jvm=(), collect_json=True, dfid=None,
+            extra_modules=None):
         """Run TLC on spec/<module>.tla with the cfg text/file. Returns TLCResult.
 
         mode bfs: exhaustive; must end with 0 states left on queue.
@@ -116,6 +117,9 @@ class Run:
         for fn in os.listdir(SPEC):
             if fn.endswith(".tla"):
                 shutil.copy(os.path.join(SPEC, fn), wd)
+        for name, text in (extra_modules or {}).items():
+            with open(os.path.join(wd, name + ".tla"), "w") as f:
+                f.write(text)
         if "\n" in cfg or cfg.strip().startswith(("CONSTANT", "SPECIFICATION", "INIT")):
             cfgpath = os.path.join(wd, module + ".run.cfg")
             with open(cfgpath, "w") as f:
